@@ -496,7 +496,7 @@ func Run(c *vl.Ctx) {
 	// budgets count from here (the compiler and the runtime are built); levels are done
 	// shortest first, so a capped run is complete up to a smaller length
 	if quick {
-		c.SetBudget(time.Since(c.Start) + 150*time.Second)
+		c.SetBudget(time.Since(c.Start) + 400*time.Second)
 	} else {
 		c.SetBudget(13 * time.Minute)
 	}
